@@ -291,16 +291,19 @@ func Run(c *vk.Ctx) {
 		rpprof.StartCPUProfile(f)
 		defer rpprof.StopCPUProfile()
 	}
+	if dbg() {
+		return
+	}
 	k := &checker{c: c}
 	dSingle, dPairEach, dPairSum, dBinary := 3, 2, 4, 5
 	if c.Thorough() {
-		dSingle, dPairEach, dPairSum, dBinary = 4, 3, 5, 7
+		dSingle, dPairEach, dPairSum, dBinary = 4, 3, 5, 6
 	}
 	single7 := enum.Shapes(sigma7, dSingle)
 	shapes6 := enum.Shapes(sigma6, 3)
 	shapes3 := enum.Shapes(sigma3, dBinary)
 	nset, tset, xset, eset := nameSettings(c.Thorough()), tagSettings(), crossSettings(), e2eSettings(c.Thorough())
-	c.Note(fmt.Sprintf("names: alphabet 7 kinds (a b c ab ?1 ?2 n; binaries m1 m2), all inline groupings; single stacks depth<=%d (%d) x 4 id/sharing/address schemes, pairs of stacks (6 kinds) of depth<=%d each and <=%d together sharing equal locations x 2 schemes, deep single stacks over (a b ?1) depth<=%d (%d); x %d name settings (5 options alone x %d expressions, all 10 pairs x %d^2, triple focus+ignore+hide x %d^3); "+
+	c.Note(fmt.Sprintf("names: alphabet 7 kinds (a b c ab ?1 ?2 n; binaries m1 m2), all inline groupings; single stacks depth<=%d (%d) x 4 id/sharing/address schemes (depth 4: dense ids only), pairs of stacks (6 kinds) of depth<=%d each and <=%d together sharing equal locations x 2 schemes (5 frames together: dense ids only), deep single stacks over (a b ?1) depth<=%d (%d); x %d name settings (5 options alone x %d expressions, all 10 pairs x %d^2, triple focus+ignore+hide x %d^3); "+
 		"tags: %d label sets, all ordered pairs%s x %d tag settings (4 options alone, all pairs; %d tag expressions, %d key expressions); cross: %d settings (name option x tag option); frameless: samples without frames; "+
 		"e2e: %d settings x (proto, proto+relative_percentages, traces) on stacks of depth<=2 and pairs of depth<=1, top totals for focus/ignore partitions, interactive 'proto F -I'",
 		dSingle, len(single7), dPairEach, dPairSum, dBinary, len(shapes3), len(nset), len(nameRx), pairMenuLen(c.Thorough()), len(nameRxSmall),
@@ -317,28 +320,6 @@ func Run(c *vk.Ctx) {
 	}
 	defaultLabels := []int{labelSetByName("k:v n:5 sz:5120"), labelSetByName("k:v,w"), labelSetByName("-")}
 
-	// Family "frameless" (first: simplest witnesses): a sample without any frame
-	// next to an ordinary one.
-	for _, sh := range enum.Shapes(sigma3, 1) {
-		for _, first := range []bool{true, false} {
-			if c.Mine(idx) {
-				shs := []enum.Shape{{}, sh}
-				if !first {
-					shs = []enum.Shape{sh, {}}
-				}
-				a := build(sigma3, shs, defaultLabels)
-				cs := Case{Family: "frameless", Stacks: tags(sigma3, shs), Labels: lsNames(defaultLabels[:2])}
-				for _, f := range append(append(singles(nameKinds, nameRx), singles(tagSelKinds, tagValsSmall)...), singles(tagKeyKinds, tagKeyRx)...) {
-					cs.Filter = f
-					k.evalLib(cs, a, ap.Opts{}, "profile-api")
-					k.evalLib(cs, a, ap.Opts{}, "applyFocus")
-				}
-				k.partition(cs, a, ap.Opts{})
-			}
-			idx++
-		}
-	}
-
 	// Family "names", single stacks, wide alphabet, four schemes.
 	for _, sh := range single7 {
 		if depthOf(sh) == 0 {
@@ -354,13 +335,39 @@ func Run(c *vk.Ctx) {
 			if c.WantSample() && depthOf(sh) == dSingle {
 				c.Sample(cs)
 			}
-			for _, sch := range []scheme{schDense, schSparse, schSplit, schZero} {
+			schemes := []scheme{schDense, schSparse, schSplit, schZero}
+			if depthOf(sh) > 3 {
+				schemes = schemes[:1]
+			}
+			for _, sch := range schemes {
 				a := sch.on(a0)
 				cs.Ids = sch.name
 				k.nameCases(cs, a, sch.o, nset)
 			}
 		}
 		idx++
+	}
+
+	// Family "frameless" : a sample without any frame
+	// next to an ordinary one.
+	for _, sh := range enum.Shapes(sigma3, 1) {
+		for _, first := range []bool{true, false} {
+			if c.Mine(idx) && depthOf(sh) > 0 {
+				shs := []enum.Shape{{}, sh}
+				if !first {
+					shs = []enum.Shape{sh, {}}
+				}
+				a := build(sigma3, shs, defaultLabels)
+				cs := Case{Family: "frameless", Stacks: tags(sigma3, shs), Labels: lsNames(defaultLabels[:2])}
+				for _, f := range append(append(singles(nameKinds, nameRx), singles(tagSelKinds, tagValsSmall)...), singles(tagKeyKinds, tagKeyRx)...) {
+					cs.Filter = f
+					k.evalLib(cs, a, ap.Opts{}, "profile-api")
+					k.evalLib(cs, a, ap.Opts{}, "applyFocus")
+				}
+				k.partition(cs, a, ap.Opts{})
+			}
+			idx++
+		}
 	}
 
 	// Family "names", deep single stacks over three kinds (recursion, long
@@ -395,7 +402,11 @@ func Run(c *vk.Ctx) {
 				shs := []enum.Shape{shapes6[i], shapes6[j]}
 				a0 := build(sigma6, shs, defaultLabels)
 				cs := Case{Family: "names", Stacks: tags(sigma6, shs)}
-				for _, sch := range []scheme{schDense, schZero} {
+				schemes := []scheme{schDense, schZero}
+				if di+dj > 4 {
+					schemes = schemes[:1]
+				}
+				for _, sch := range schemes {
 					cs.Ids = sch.name
 					k.nameCases(cs, sch.on(a0), sch.o, nset)
 				}
@@ -904,7 +915,13 @@ func wantTraces(a *ap.AP, stacks []ap.Stack) []trace {
 		}
 		var names []string
 		for j := len(fr) - 1; j >= 0; j-- {
-			names = append(names, model.KeyOf(model.SFrame{Frame: fr[j], File0: a.MapFile(fr[j].Map)}, model.Cfg{Gran: "addresses"}).Printable())
+			// -traces names a frame by its function, an address without symbols
+			// by its binary
+			if fr[j].NoLines {
+				names = append(names, model.Key{Obj: a.MapFile(fr[j].Map)}.Printable())
+			} else {
+				names = append(names, fr[j].Func)
+			}
 		}
 		out = append(out, trace{s.Values[len(s.Values)-1], strings.Join(names, " <- ")})
 	}
@@ -1018,17 +1035,23 @@ func (k *checker) e2e(cs Case, a *ap.AP, settings []Filt) {
 			if rel {
 				cs.Via = "top,relative_percentages"
 			}
-			frameless := ""
+			// value of the samples without frames (they are shown nowhere, but
+			// they are part of the profile's total)
+			var frameless int64
 			for i := range a.Stacks {
 				if len(a.Stacks[i].Locs) == 0 {
-					frameless = "frameless-sample/"
+					frameless += a.Stacks[i].Values[len(a.Stacks[i].Values)-1]
 				}
 			}
 			if sf+si != s0 {
-				c.Violationf("partition/e2e/"+frameless+"shown-totals", cs, "shown: focus=%s %d + ignore=%s %d != unfiltered %d", r, sf, r, si, s0)
+				c.Violationf("partition/e2e/shown-totals", cs, "shown: focus=%s %d + ignore=%s %d != unfiltered %d", r, sf, r, si, s0)
 			}
 			if rel && tf+ti != t0 {
-				c.Violationf("partition/e2e/"+frameless+"relative-totals", cs, "totals: focus=%s %d + ignore=%s %d != unfiltered %d", r, tf, r, ti, t0)
+				cl := "partition/e2e/relative-totals"
+				if frameless != 0 && tf+ti == t0-frameless {
+					cl = "partition/focus,ignore/frameless-sample-in-neither"
+				}
+				c.Violationf(cl, cs, "totals: focus=%s %d + ignore=%s %d != unfiltered %d", r, tf, r, ti, t0)
 			}
 		}
 	}
